@@ -137,6 +137,127 @@ func secretHistory(c c08Case, x *xplore.X) (obs, bad string) {
 
 var _ io.Reader = (*recReader)(nil)
 
+// setRandomSeam (instrumented build) substitutes what crypto/rand.Reader delivers WITHOUT replacing the reader value:
+// the library cannot tell the explored stream from the stock source.
+var setRandomSeam func(io.Reader) bool
+
+// longStream is a deterministic stream of n bytes without repeated windows in practice (xorshift64*).
+func longStream(n int) []byte {
+	out := make([]byte, n)
+	x := uint64(0x9E3779B97F4A7C15)
+	for i := range out {
+		x ^= x >> 12
+		x ^= x << 25
+		x ^= x >> 27
+		out[i] = byte((x * 0x2545F4914F6CDD1D) >> 56)
+	}
+	return out
+}
+
+type c08Long struct {
+	Algos  []int `json:"algos_cycle"` // call i uses Algos[i % len]
+	Calls  int   `json:"calls"`
+	Stream int   `json:"stream_bytes"`
+}
+
+// randomSeamLog (instrumented build) is the record of every byte the source has delivered through the seam.
+var randomSeamLog func() ([]byte, bool)
+
+// seamUsed marks the bytes of that record that are part of a secret handed out during this process; seamLast is the end
+// of the most recent one.  (Both span histories: so does whatever the library keeps.)
+var seamUsed []bool
+var seamLast int
+
+// seamHistory runs a LONG history with the stream delivered through the identity-preserving seam.  The library may
+// buffer (read more than one secret's worth, also before the history began): the oracle is that every secret is n
+// consecutive bytes of what the source has delivered to the process so far, none of which is part of another secret.
+func seamHistory(c c08Long) (obs, bad string) {
+	if setRandomSeam == nil || randomSeamLog == nil {
+		return "no seam", ""
+	}
+	rr := &recReader{stream: longStream(c.Stream)}
+	if !setRandomSeam(rr) {
+		return "seam replaced", ""
+	}
+	defer setRandomSeam(nil)
+	free := func(p, n int) bool {
+		for k := p; k < p+n; k++ {
+			if k < len(seamUsed) && seamUsed[k] {
+				return false
+			}
+		}
+		return true
+	}
+	secrets := 0
+	for i := 0; i < c.Calls; i++ {
+		a := c.Algos[i%len(c.Algos)]
+		before := rr.off
+		var s string
+		var err error
+		if p := try(func() { s, err = otp.RandomSecret(otp.Algorithm(a)) }); p != "" {
+			return obs + "panic:" + p, fmt.Sprintf("call %d panicked: %s", i, p)
+		}
+		if rr.off > len(rr.stream) {
+			return fmt.Sprintf("%d secrets, stream of %d bytes exhausted at call %d", secrets, len(rr.stream), i), ""
+		}
+		n := ref.HashLen(a)
+		if n == 0 {
+			if err == nil || s != "" {
+				return obs, fmt.Sprintf("call %d: unsupported hash must give (\"\", error)", i)
+			}
+			if rr.off != before {
+				return obs, fmt.Sprintf("call %d: unsupported hash consumed %d random bytes", i, rr.off-before)
+			}
+			continue
+		}
+		if err != nil {
+			return obs, fmt.Sprintf("call %d: unexpected error %v", i, err)
+		}
+		v, b := ref.B32Classify(s)
+		if v != ref.MustAccept || len(b) != n || s != ref.B32Encode(b) {
+			return obs, fmt.Sprintf("call %d: %q is not the unpadded upper-case base32 of %d bytes", i, s, n)
+		}
+		log, complete := randomSeamLog()
+		if !complete {
+			return fmt.Sprintf("%d secrets; the record of delivered bytes overflowed", secrets), ""
+		}
+		if seamLast > len(log) {
+			seamLast = 0
+		}
+		p := -1
+		if k := bytes.Index(log[seamLast:], b); k >= 0 && free(seamLast+k, n) {
+			p = seamLast + k
+		} else {
+			for from := 0; from+n <= len(log); {
+				k := bytes.Index(log[from:], b)
+				if k < 0 {
+					break
+				}
+				if free(from+k, n) {
+					p = from + k
+					break
+				}
+				from += k + 1
+			}
+		}
+		if p < 0 {
+			return obs, fmt.Sprintf("call %d of the history (hash %d): the secret's bytes %x are not %d consecutive, so far unused bytes of what the random source has delivered to this process (%d bytes delivered, %d secrets in this history before)", i, a, b, n, len(log), secrets)
+		}
+		for len(seamUsed) < p+n {
+			seamUsed = append(seamUsed, false)
+		}
+		for k := p; k < p+n; k++ {
+			seamUsed[k] = true
+		}
+		seamLast = p + n
+		secrets++
+		if d, e := otp.DecodeSecret(s); e != nil || !bytes.Equal(d, b) {
+			return obs, fmt.Sprintf("call %d: DecodeSecret does not map the secret back to its bytes", i)
+		}
+	}
+	return fmt.Sprintf("%d secrets", secrets), ""
+}
+
 // c08Scheduled is set by the instrumented build: interleaved call histories under the cooperative scheduler.
 var c08Scheduled func(r *ev.Run, registerOnly bool)
 
@@ -144,6 +265,7 @@ func c08(r *ev.Run) {
 	if c08Scheduled != nil {
 		c08Scheduled(r, true)
 	}
+	r.Scenario("random-secret-long-history", func(raw []byte) (string, string) { return seamHistory(unjson[c08Long](raw)) })
 	r.Scenario("random-secret", func(raw []byte) (string, string) {
 		c := unjson[c08Case](raw)
 		var obs, bad string
@@ -176,6 +298,33 @@ func c08(r *ev.Run) {
 			c.Choices = x.Choices()
 		}
 		r.Fail("random-secret", sig+": "+bad, c, bad, obs)
+	}
+	// long histories through the identity-preserving seam: whatever the library does when it believes it is talking to
+	// the stock source (read-ahead blocks, batching) - lengths that do not tile any power-of-two block up to 64 KiB
+	{
+		var ln, lsec int64
+		if setRandomSeam == nil {
+			r.NotExhaustive("the identity-preserving random seam is not available in this build")
+		}
+		cycles := [][]int{{0}, {1}, {2}, {0, 1, 2}, {0, 2}, {1, 0, 0}, {2, 3, 0, 255}, {0, 0, 0, 1}}
+		calls := 3600
+		if r.Thorough() {
+			calls = 40000
+		}
+		for _, cy := range cycles {
+			c := c08Long{Algos: cy, Calls: calls, Stream: calls*64 + 1<<17}
+			obs, bad := seamHistory(c)
+			ln += int64(calls)
+			lsec++
+			r.Transition(int64(calls))
+			r.State(1)
+			if bad != "" {
+				r.Fail("random-secret-long-history", fmt.Sprintf("cycle of hashes %v through the stock-reader path: %s", cy, bad), c, "every secret is n consecutive unused bytes of what the source delivered", obs+" "+bad)
+			}
+			r.DistinctS(fmt.Sprint(cy, obs))
+		}
+		r.Eval(ln)
+		r.Set("long_histories_through_identity_preserving_seam", map[string]any{"histories": lsec, "calls_each": calls, "hash_cycles": cycles})
 	}
 	var n int64
 	tag := make([]byte, 256)
